@@ -8,6 +8,12 @@ Targets (called trainer-free, see DESIGN 2.5):
   rl4co.models.rl.ppo.n_step_ppo.n_step_PPO (through zoo DACT / NeuOpt / N2S on tsp_kopt / pdp_ruin_repair); the
   executors and formulas of the last two live in vf/c16_ppo_variants.py.
 
+  Round 3b: zoo models with their own loss / rollout layout (MDAM, PolyNet, MatNet, MVMoE, HAM, PointerNetwork,
+  L2DModel: vf/c16_zoo_loss.py, sub `zoo_loss`); the library default baseline="rollout" (WarmupBaseline around a
+  RolloutBaseline) consulted through eval() in all three warm-up phases (sub `rollout_eval`); critic=None routes of
+  A2C / PPO / AMPPO; a float64 slice; second shared_step on one PPO / n_step_PPO model; validation steps and skipped
+  epoch callbacks between the train steps of a stateful baseline.
+
 Oracle: the surrogate written from the property / docstrings and evaluated on the *same* rollout tensors
 (reward, log-likelihood with its graph, captured from the policy's forward with a forward hook):
 
@@ -78,6 +84,7 @@ import hypothesis.strategies as st
 import torch
 
 from .. import c16_ppo_variants as _ppov
+from .. import c16_zoo_loss as _zoo
 from ..runner import HarnessError, Sub
 
 PROPERTY = "C16"
@@ -92,10 +99,18 @@ RULE = (
     "stepwise_ppo: FJSP/JSSP 2-4 jobs x 2-3 machines (1-3 ops per job, one2one or free machine map, processing times "
     "<= 5/20/99), B 2-6, L2DPolicy4PPO embed 16/32, 1-2 HGNN layers, instance/layer normalisation, mini_batch_size "
     "between a quarter of and all guaranteed buffer rows, ppo_epochs 1-2, clip/vf_lambda/entropy_lambda "
-    "(0/0.01/0.1)/max_grad_norm/reward_scale None|int drawn, 1-2 successive updates on one model. nstep_ppo: DACT "
+    "(0/0.01/0.1)/max_grad_norm/reward_scale None|int|norm|scale drawn, 1-2 successive updates on one model. nstep_ppo: DACT "
     "(tsp_kopt k_max 2) / NeuOpt (k_max 3-4) n 5-8, N2S (pdp_ruin_repair) n 4/6/8, B 2-6, embed 16/32, 1-2 layers, "
     "1/2/4 heads, layer/instance/batch normalisation, n_step 1-3, T_train = 1-2 segments, ppo_epochs 1-3, gamma "
     "0.5..1, normalize_adv, curriculum steps 0-2 / CL_best, bundled dropout off (3/4) or on. "
+    "Round 3b: float64 slice of the reinforce sub (policy, critic, instances in double; tolerances 1e-11 / 1e-9); "
+    "validation/test steps (eval mode, no_grad) and skipped epoch callbacks between the train steps of one model; "
+    "rollout_eval: baseline='rollout' = WarmupBaseline(RolloutBaseline) through eval() with n_epochs 1-4, 0-2 epoch "
+    "callbacks and parameter drift before each of 1-3 steps (alpha 0 / interior / 1, challenger accepted or not); "
+    "zoo_loss (vf/c16_zoo_loss.py): MDAM [batch, paths], PolyNet (Poppy mask, k 2-4), MatNet/atsp, MVMoE_POMO, MVMoE_AM, "
+    "HAM/pdp, PointerNetwork, L2DModel/fjsp|jssp with baselines no/mean/exponential/extra, embed 32; A2C / PPO / AMPPO "
+    "with critic=None + critic_kwargs; PPO mini_batch_size fallbacks (1.5, -0.5, 0.0, 0, -3); second shared_step on one "
+    "PPO / n_step_PPO model; StepwisePPO reward_scale 'norm'|'scale'; SymNCO num_augment=1 / dihedral8 / feats. "
     "Non-trivial = B >= 3 with non-constant rewards (and, for stateful baselines exponential/mean/warmup/scalers, "
     ">= 2 successive steps); stepwise_ppo: some mini-batch of >= 3 rows with non-constant step rewards; nstep_ppo: "
     "some inner step with n_step*B >= 3 rows and non-constant n-step returns; distinct = distinct case hash."
@@ -108,9 +123,22 @@ ASSUMPTIONS = [
     "PPO with mini-batches smaller than the batch uses instance/layer normalisation (batch-norm statistics depend on "
     "the mini-batch, so rho == 1 is not expected there); with normalize_adv every mini-batch has >= 2 rows",
     "PPO entropy H is the policy's own `entropy` output; advantage normalisation uses the unbiased std + 1e-8 as coded",
-    "an explicit CriticNetwork is always supplied (note O4)",
+    "an explicit CriticNetwork is supplied (note O4) except on the critic=None routes, where critic_kwargs carry the "
+    "policy's embed_dim (the default 128 does not fit a small policy) and the built critic must be a CriticNetwork around "
+    "an independent copy of the actor's encoder",
+    "float64 slice: the library computes in float64 throughout (loss, gradients, baseline values); the running-moment "
+    "scalers take their square root in float32 (C20), their cases keep a float32-level value tolerance",
+    "WarmupBaseline(RolloutBaseline) through eval(): consulted via REINFORCE.calculate_loss on the reset state "
+    "(REINFORCE.shared_step hands the finished td to baseline.eval and cannot be used without `extra`, observation); which "
+    "policy snapshot the rollout baseline holds after an epoch callback is read from the object and must be the previous "
+    "snapshot or the challenger (parameters and buffers); the acceptance t-test itself is not judged",
+    "zoo_loss: MDAM / PolyNet do not apply the advantage scaler (reward_scale None there); PolyNet ties of the best "
+    "rollout are don't-care (loss interval over the tied choices, no gradient comparison); MVMoE noisy gating / MatNet "
+    "random one-hot init are sampled once in the captured forward; L2D makespans are not re-derived (C07)",
+    "StepwisePPO reward_scale 'norm'|'scale': the scaler sees the step rewards of all rows decoding step by decoding "
+    "step; stored rewards are compared in that order with float64 two-pass moments (histories with max|r|/std > 200 excluded)",
     "StepwisePPO: update_timestep = 1, default list-storage buffer (buffer_storage_device 'gpu' = no memmap/prefetch "
-    "threads), mini_batch_size <= number of buffered rows, integer or no reward scaling; the reward is the library's "
+    "threads), mini_batch_size <= number of buffered rows; the reward is the library's "
     "immediate step reward (no reward-to-go) as coded; entropy H is compared with -sum p log p of the masked, "
     "tanh-clipped actor logits (2e-5)",
     "n_step_PPO: formulas as coded (bootstrap value recomputed per inner epoch, PPO2-style value clipping against the "
@@ -121,9 +149,20 @@ ASSUMPTIONS = [
 TIME_CAP = {"quick": 300, "thorough": 2400}
 
 EPS32 = float(torch.finfo(torch.float32).eps)
+EPS64 = float(torch.finfo(torch.float64).eps)
 VAL_RTOL = 2e-6
 GRAD_RTOL = 2e-5
 GRAD_GTOL = 4e-6
+# tolerance set in force (float32 by default); the float64 slice (audit item 26) switches to the second set for the
+# duration of one case: the library then computes in float64 and only double rounding separates it from the reference
+_P32 = {"val": VAL_RTOL, "grad_r": GRAD_RTOL, "grad_g": GRAD_GTOL, "eps": EPS32, "name": "f32"}
+_P64 = {"val": 1e-11, "grad_r": 1e-9, "grad_g": 1e-10, "eps": EPS64, "name": "f64"}
+_P = dict(_P32)
+
+
+def set_precision(f64):
+    _P.clear()
+    _P.update(_P64 if f64 else _P32)
 
 
 def preimport():
@@ -181,10 +220,20 @@ def reinforce_cases(draw, tier="quick"):
         c["n_epochs"] = draw(st.integers(1, 4))
         # number of epoch_callback calls issued before each step (alpha = (epoch+1)/n_epochs while epoch < n_epochs)
         c["callbacks"] = [draw(st.integers(0, 2)) for _ in c["steps"]]
+        # audit H5: non-consecutive epoch callbacks (the first callback before a step skips `jump` epochs)
+        if draw(st.booleans()):
+            c["jumps"] = [draw(st.sampled_from([0, 1, 2, 3, 4])) for _ in c["steps"]]
+    # audit H5: a validation / test step (eval mode, no_grad, as the Lightning loops run it) between two train steps of
+    # one model: it must leave the baseline, the advantage scaler and hence the next training loss untouched
+    if len(c["steps"]) >= 2 and draw(st.integers(0, 2)) == 0:
+        c["between"] = [None] + [draw(st.sampled_from([None, "val", "val", "test"])) for _ in c["steps"][1:]]
     if kind == "shared":
         c["S"] = draw(st.integers(2, min(6, c["n"])))
     if kind == "rollout_extra":
         c["drift"] = draw(st.sampled_from([0.0, 0.05, 0.3]))
+    # audit item 26: float64 slice (policy, critic and instances in double precision; tolerances of _P64)
+    if draw(st.integers(0, 4)) == 0:
+        c["f64"] = True
     return c
 
 
@@ -203,6 +252,16 @@ def symnco_cases(draw, tier="quick"):
     c["A"] = draw(st.integers(2, 4))
     c["S"] = draw(st.sampled_from([0, 0, 2, 3, 4]))
     c["S"] = min(c["S"], c["n"])
+    # audit item 26: num_augment=1 (no augmentation: only the problem-symmetricity term is left, needs num_starts > 1),
+    # augment_fn="dihedral8" (num_augment must be 8), feats=["locs"] handed over explicitly
+    opt = draw(st.sampled_from(["", "", "", "A1", "dihedral8", "feats"]))
+    if opt == "A1":
+        c["A"], c["S"] = 1, max(2, c["S"])
+    elif opt == "dihedral8":
+        c["A"], c["fn"], c["S"] = 8, "dihedral8", min(c["S"], 2)
+        c["B"] = min(c["B"], 4)
+    elif opt == "feats":
+        c["feats"] = ["locs"]
     c["alpha"] = draw(st.sampled_from([0.0, 0.2, 1.0]))
     c["beta"] = draw(st.sampled_from([0.5, 1.0, 2.0]))
     c["steps"] = _steps(draw, 1, 2)
@@ -215,15 +274,26 @@ def a2c_cases(draw, tier="quick"):
     c["shared_encoder"] = draw(st.booleans())
     c["steps"] = _steps(draw, 1, 2)
     c["reward_scale"] = draw(st.sampled_from([None, None, None, 10]))
+    # audit item 26: A2C(critic=None, critic_kwargs=...) builds its critic from a copy of the actor's encoder
+    if draw(st.integers(0, 2)) == 0:
+        c["critic_route"] = "default"
     return c
 
 
 @st.composite
 def ppo_cases(draw, tier="quick"):
     B = draw(st.integers(3, 8))
-    mode = draw(st.sampled_from(["full", "frac", "int"]))
+    mode = draw(st.sampled_from(["full", "frac", "int", "fallback"]))
     normalize = draw(st.booleans())
-    if mode == "full":
+    if mode == "fallback":
+        # audit item 26: invalid values fall back (ppo.py): float outside (0, 1] -> 0.25, int <= 0 -> 128
+        mb = draw(st.sampled_from([1.5, -0.5, 0.0, 0, -3]))
+        if isinstance(mb, float):
+            B = max(B, 4)  # int(B * 0.25) >= 1
+            m = int(B * 0.25)
+        else:
+            m = B
+    elif mode == "full":
         mb = draw(st.sampled_from([1.0, B, B + 3]))
         m = B
     elif mode == "frac":
@@ -249,6 +319,13 @@ def ppo_cases(draw, tier="quick"):
         shared_encoder=draw(st.booleans()),
         dseed=draw(SEED), sseed=draw(SEED),
     )
+    # audit item 26: critic built by the model: PPO(critic=None, critic_kwargs=...) / AMPPO's own construction
+    r = draw(st.sampled_from(["explicit", "explicit", "default", "amppo"]))
+    if r != "explicit":
+        c["critic_route"] = r
+    # audit H5: a second shared_step on the same model after the (fake) optimiser moved the parameters
+    if draw(st.integers(0, 2)) == 0:
+        c["second"] = dict(dseed=draw(SEED), sseed=draw(SEED))
     return c
 
 
@@ -257,6 +334,18 @@ def rollout_eval_cases(draw, tier="quick"):
     c = draw(_base(bmin=3))
     c["drift"] = draw(st.sampled_from([0.0, 0.05, 0.3]))
     c["dseed"], c["sseed"], c["eseed"] = draw(SEED), draw(SEED), draw(SEED)
+    # audit item 25: the library default baseline="rollout" = WarmupBaseline(RolloutBaseline), consulted through eval()
+    # (no `extra`), in the phases alpha = 0, 0 < alpha < 1 and alpha = 1 within one history
+    if draw(st.sampled_from([False, True, True, True])):
+        ne = draw(st.sampled_from([1, 2, 2, 3, 3, 4]))
+        k = draw(st.integers(1, 3))
+        c["warm"] = dict(n_epochs=ne, beta=draw(BETAS), bl_alpha=draw(st.sampled_from([0.05, 0.5, 1.0])),
+                         # epoch callbacks issued before each step (alpha > 0 from the first step on in 3 of 4 cases)
+                         callbacks=[draw(st.integers(0, 2)) if i else draw(st.sampled_from([0, 1, 1, 2]))
+                                    for i in range(k)],
+                         steps=[dict(dseed=draw(SEED), sseed=draw(SEED), drift=draw(st.sampled_from([0.0, 0.05, 0.3])))
+                                for _ in range(k)],
+                         via=draw(st.sampled_from(["name", "name", "object"])))
     return c
 
 
@@ -379,7 +468,7 @@ class RefScaler:
         x = torch.cat(self.seen)
         mean = x.mean()
         std = ((x - mean) ** 2).sum().div(x.numel() - 1).sqrt()
-        factor = std + EPS32
+        factor = std + _P["eps"]  # (the scaler adds finfo(scores.dtype).eps)
         self.cond = float(max(float(x.abs().max()), mag or 0.0) / factor) if float(std) > 0 else math.inf
         self.amp = float(1.0 / factor)
         return (adv64 - mean) / factor if self.scale == "norm" else adv64 / factor
@@ -419,7 +508,7 @@ def ulp_noise(shape_like, weight64, loose=1.0):
     the advantages perturbed by exactly this amount; the measured change is the resolution of the comparison."""
     gen = torch.Generator().manual_seed(12345)
     sgn = (torch.randint(0, 2, tuple(shape_like.shape), generator=gen) * 2 - 1).double()
-    return EPS32 * loose * sgn * weight64
+    return _P["eps"] * loose * sgn * weight64
 
 
 def compare_grads(ctx, named, loss, ref_fn, pert, sig, what, loose=1.0):
@@ -436,7 +525,7 @@ def compare_grads(ctx, named, loss, ref_fn, pert, sig, what, loose=1.0):
     for (name, _), a, b, nz in zip(named, g_lib, g_ref, noise):
         a, b = a.double(), b.double()
         err = float((a - b).norm())
-        tol = loose * (GRAD_RTOL * max(float(a.norm()), float(b.norm())) + GRAD_GTOL * G) + 8 * nz + noise_all + 1e-12
+        tol = loose * (_P["grad_r"] * max(float(a.norm()), float(b.norm())) + _P["grad_g"] * G) + 8 * nz + noise_all + 1e-12
         _cal("grad", err / tol)
         if err > tol:
             grp = "policy" if name.startswith("policy.") else "critic"
@@ -459,8 +548,9 @@ def _cal(kind, value):
             f.write(f"{kind} {value:.4e} {_CUR.get('sig')}\n")
 
 
-def close(x, y, scale, rtol=VAL_RTOL):
-    tol = rtol * float(scale) + 1e-9
+def close(x, y, scale, rtol=None):
+    rtol = _P["val"] if rtol is None else rtol
+    tol = rtol * float(scale) + (1e-9 if _P["name"] == "f32" else 1e-14)
     _cal("value", abs(float(x) - float(y)) / tol)
     return abs(float(x) - float(y)) <= tol and math.isfinite(float(x))
 
@@ -516,10 +606,12 @@ class RefWarmup:
         self.inner, self.n_epochs, self.alpha, self.epoch = inner, n_epochs, 0.0, 0
         self.warm = RefBaseline("exponential", beta_w)
 
-    def callback(self):
-        if self.epoch < self.n_epochs:
-            self.alpha = (self.epoch + 1) / float(self.n_epochs)
-        self.epoch += 1
+    def callback(self, epoch=None):
+        """epoch callback of `epoch` (default: the next consecutive one): alpha = min(1, (epoch+1)/n_epochs), also when
+        epochs are skipped (resumed runs; C20 / F27)"""
+        e = self.epoch if epoch is None else epoch
+        self.alpha = min(1.0, (e + 1) / float(self.n_epochs))
+        self.epoch = e + 1
 
     def __call__(self, td0, R):
         if self.alpha == 1:
@@ -549,8 +641,12 @@ def check_surrogate(ctx, case, sig, out, named, R, ll, b64, lb_ref, scaler, step
         if scaler.cond > 200:
             ctx.exclude("scaler_ill_conditioned")
             return
-        loose = 2.0 * (1.0 + scaler.cond) + EPS32 * (1.0 + scaler.cond) ** 2 / VAL_RTOL
-    rtol = VAL_RTOL * loose
+        # (the scaler takes the square root of its variance in float32 for every input dtype, C20: its outputs carry a
+        #  float32 relative error also in the float64 slice)
+        loose = 2.0 * (1.0 + scaler.cond) + _P["eps"] * (1.0 + scaler.cond) ** 2 / _P["val"]
+        if _P["name"] == "f64":
+            loose += 8 * EPS32 / _P["val"]
+    rtol = _P["val"] * loose
     detail = {"step": step, "loss": loss, "ref": float(pg64) + lb64, "pg_ref": float(pg64), "lb_ref": lb64,
               "R": R, "b_ref": b64, "ll": ll}
     ctx.check(torch.is_tensor(loss) and loss.dim() == 0, f"loss_shape|{sig}", "loss is not a scalar tensor", detail)
@@ -565,7 +661,7 @@ def check_surrogate(ctx, case, sig, out, named, R, ll, b64, lb_ref, scaler, step
     # gradients: reference built from the captured log-likelihood graph with R, b detached
     def ref_fn(pert):
         a = adv64 if pert is None else adv64 + pert
-        ref = -(a.float().detach() * ll).mean()
+        ref = -(a.to(ll.dtype).detach() * ll).mean()
         return ref + lb_ref if torch.is_tensor(lb_ref) else ref
 
     compare_grads(ctx, named, loss, ref_fn, ulp_noise(adv64, (R64.abs() + b64.abs()) * scaler.amp, loose), sig,
@@ -587,7 +683,7 @@ def check_bl_val(ctx, sig, bl_val, b64, R, step):
     except RuntimeError:
         ctx.violation(f"baseline_shape|{sig}", f"baseline value shape {tuple(got.shape)} does not broadcast", None)
         return
-    ok = bool((diff <= VAL_RTOL * (1 + b64.abs())).all()) and torch.broadcast_shapes(got.shape, R.shape) == R.shape
+    ok = bool((diff <= _P["val"] * (1 + b64.abs())).all()) and torch.broadcast_shapes(got.shape, R.shape) == R.shape
     ctx.check(ok, f"baseline_value|{sig}",
               f"step {step}: baseline value {got.reshape(-1)[:4].tolist()} != reference {b64.reshape(-1)[:4].tolist()}",
               {"bl_val": got, "b_ref": b64})
@@ -599,12 +695,34 @@ def exec_reinforce(case, ctx):
                                                      WarmupBaseline, get_reinforce_baseline)
 
     kind = case["kind"]
+    f64 = bool(case.get("f64"))
+    set_precision(f64)
+    try:
+        _exec_reinforce(case, ctx, kind, f64)
+    finally:
+        set_precision(False)
+
+
+def _exec_reinforce(case, ctx, kind, f64):
+    from rl4co.models.rl import REINFORCE
+    from rl4co.models.rl.reinforce.baselines import (CriticBaseline, ExponentialBaseline, NoBaseline,
+                                                     WarmupBaseline, get_reinforce_baseline)
+    from ..policies import to_double
+
     env = make_env(case)
     pol = make_policy(case)
+    if f64:
+        pol = pol.double()
     rec = Recorder(pol)
     critic = None
     sig = kind
     B = case["B"]
+    ctx.event("dtype=" + ("f64" if f64 else "f32"))
+    _make_critic = globals()["make_critic"]
+
+    def make_critic(case, pol, shared):  # noqa  (float64 slice: the critic follows the policy's dtype)
+        c = _make_critic(case, pol, shared)
+        return c.double() if f64 else c
 
     def lib_and_ref(k, beta):
         """bundled baseline object + its reference model"""
@@ -644,10 +762,12 @@ def exec_reinforce(case, ctx):
             g = torch.Generator().manual_seed(case["wseed"] + 3)
             with torch.no_grad():
                 for p in pol.parameters():
-                    p.add_(case["drift"] * p.abs().mean() * torch.randn(p.shape, generator=g))
+                    p.add_(case["drift"] * p.abs().mean() * torch.randn(p.shape, generator=g).to(p.dtype))
         ref_bl = None
     else:
         raise HarnessError(kind)
+    if f64:
+        sig += "|f64"
     if case["reward_scale"] is not None:
         sig += f"|scale={case['reward_scale'] if isinstance(case['reward_scale'], str) else 'int'}"
     named = uniq_named(("policy", pol), ("critic", critic))
@@ -657,14 +777,32 @@ def exec_reinforce(case, ctx):
     ctx.event(f"scale={case['reward_scale']}")
 
     for k, stp in enumerate(case["steps"]):
+        if case.get("between") and case["between"][k]:
+            ph = case["between"][k]
+            vb = gen_batch(env, B, stp["dseed"] + 17)
+            if f64:
+                vb = to_double(vb)
+            pol.eval()
+            with torch.no_grad():
+                vres = ctx.guard(model.shared_step, vb, 0, ph, what=f"shared_step|{kind}|{ph}")
+            pol.train()
+            ctx.check(vres.get("loss") is None, f"val_step_has_loss|{sig}", f"a {ph} step returned a loss")
+            ctx.event(f"between={ph}")
         if kind == "warmup":
-            for _ in range(case["callbacks"][k]):
-                ctx.guard(bl.epoch_callback, pol, env=env, batch_size=B, device="cpu", epoch=ref_bl.epoch,
+            for j in range(case["callbacks"][k]):
+                e = ref_bl.epoch + (case["jumps"][k] if case.get("jumps") and j == 0 else 0)
+                if e != ref_bl.epoch:
+                    ctx.event("epoch_callback_skipped_epochs")
+                ctx.guard(bl.epoch_callback, pol, env=env, batch_size=B, device="cpu", epoch=e,
                           dataset_size=B, what="epoch_callback")
-                ref_bl.callback()
+                ref_bl.callback(e)
             ctx.event("alpha=" + ("0" if ref_bl.alpha == 0 else "1" if ref_bl.alpha == 1 else "interior"))
         batch = gen_batch(env, B, stp["dseed"])
+        if f64:
+            batch = to_double(batch)
         td0 = env.reset(batch.clone())
+        if f64:
+            td0 = to_double(td0)
         rec.clear()
         if kind == "shared":
             # multi-start rollout regrouped by the harness ([b, s] <- flat s*B + b) and handed to calculate_loss
@@ -708,14 +846,39 @@ def exec_reinforce(case, ctx):
 
 
 # =========================================================================== A2C
+def check_default_critic(ctx, tag, pol, critic):
+    """critic=None: 'we reuse the network of the policy's backbone' (create_critic_from_actor / AMPPO): a CriticNetwork
+    around a COPY of the actor's encoder - same weights at construction, no shared parameters (a shared encoder would
+    let the value loss move the actor; that configuration is the explicit `critic_shared` one)."""
+    from rl4co.models.rl.common.critic import CriticNetwork
+
+    ok = isinstance(critic, CriticNetwork) and critic.encoder is not pol.encoder
+    if ok:
+        pa, pb = dict(pol.encoder.named_parameters()), dict(critic.encoder.named_parameters())
+        ok = pa.keys() == pb.keys() and all(pa[k] is not pb[k] and torch.equal(pa[k], pb[k]) for k in pa)
+    ctx.check(ok, f"default_critic|{tag}", "critic=None did not build a CriticNetwork around an independent copy of the "
+              "actor's encoder")
+    _assert_deterministic_module(critic)
+    critic.train()
+    ctx.event(f"critic_route=default|{tag}")
+
+
 def exec_a2c(case, ctx):
     from rl4co.models.rl import A2C
 
     env = make_env(case)
     pol = make_policy(case)
     rec = Recorder(pol)
-    critic = make_critic(case, pol, shared=case["shared_encoder"])
-    model = A2C(env, pol, critic=critic, reward_scale=case["reward_scale"])
+    if case.get("critic_route") == "default":
+        torch.manual_seed(case["wseed"] + 7)
+        model = ctx.guard(A2C, env, pol, critic=None, critic_kwargs=dict(embed_dim=case["E"], hidden_dim=2 * case["E"]),
+                          reward_scale=case["reward_scale"], what="A2C.__init__|critic=None")
+        critic = model.baseline.critic
+        check_default_critic(ctx, "a2c", pol, critic)
+        case = {**case, "shared_encoder": False}
+    else:
+        critic = make_critic(case, pol, shared=case["shared_encoder"])
+        model = A2C(env, pol, critic=critic, reward_scale=case["reward_scale"])
     kind = "critic_shared" if case["shared_encoder"] else "critic"
     ref_bl = RefBaseline(kind, critic=critic)
     named = uniq_named(("policy", pol), ("critic", critic))
@@ -794,9 +957,15 @@ def exec_symnco(case, ctx):
     A, S, B = case["A"], case["S"], case["B"]
     if S == 1:
         S = 0
-    model = SymNCO(env, pol, num_augment=A, num_starts=S, alpha=case["alpha"], beta=case["beta"])
+    kw = {}
+    if "fn" in case:
+        kw["augment_fn"] = case["fn"]
+    if "feats" in case:
+        kw["feats"] = list(case["feats"])
+    model = SymNCO(env, pol, num_augment=A, num_starts=S, alpha=case["alpha"], beta=case["beta"], **kw)
     named = uniq_named(("policy", pol))
-    sig = f"symnco|S={'0' if S == 0 else 'k'}"
+    sig = f"symnco|S={'0' if S == 0 else 'k'}" + ("|A=1" if A == 1 else "")
+    ctx.event("opt=" + ("A1" if A == 1 else case.get("fn") or ("feats" if "feats" in case else "default")))
     _CUR["sig"] = sig
     ctx.event(f"S={'0' if S == 0 else 'k'}")
     ctx.event("S==A" if S == A else "S!=A")
@@ -821,6 +990,8 @@ def exec_symnco(case, ctx):
         # library layout documented by ops.unbatchify ('(r b) ... -> b r ...', applied for n_aug then n_start):
         # element [b, i, j] <- flat j*(S1*B) + i*B + b   (i < S1, j < A); for S == 0 only [b, j] <- flat j*B + b
         def regroup(x):
+            if A == 1:  # a factor of 1 is no axis (ops.unbatchify): [B, S] <- flat i*B + b
+                return torch.stack([x[i * B + torch.arange(B)] for i in range(S1)], 1)
             if S == 0:
                 return torch.stack([x[j * B + torch.arange(B)] for j in range(A)], 1)  # [B, A]
             return torch.stack([torch.stack([x[j * (S1 * B) + i * B + torch.arange(B)] for j in range(A)], 1)
@@ -838,8 +1009,13 @@ def exec_symnco(case, ctx):
 
         scale = float((R64.abs() * ll64.abs()).mean()) * 2
         terms64 = {}
-        adv_ss = pg(-1)
-        terms64["loss_ss"] = float(-(adv_ss * llg.detach().double()).mean())
+        if A == 1:
+            # no augmentation: solution-symmetricity and invariance terms are switched off ("if n_aug > 1")
+            adv_ss = torch.zeros_like(Rg64)
+            terms64["loss_ss"] = 0.0
+        else:
+            adv_ss = pg(-1)
+            terms64["loss_ss"] = float(-(adv_ss * llg.detach().double()).mean())
         if S > 1:
             adv_ps = pg(1)
             terms64["loss_ps"] = float(-(adv_ps * llg.detach().double()).mean())
@@ -851,15 +1027,18 @@ def exec_symnco(case, ctx):
                       f"{name} {float(out[name]):.8g} != reference {terms64[name]:.8g}",
                       {"R": Rg, "ll": llg, "step": k})
         linv = out["loss_inv"]
-        # invariance term: mean over rows of sum_i cos(pe[:, 0], pe[:, i]); layout (b a) as coded or (a b) as laid out
-        pe = out["proj_embeddings"].detach().double()
-        cos = torch.nn.functional.cosine_similarity
-        v_ba = pe.reshape(B, A, *pe.shape[1:])
-        v_ab = pe.reshape(A, B, *pe.shape[1:]).transpose(0, 1)
-        cands = [float(sum(cos(v[:, 0], v[:, i], dim=-1) for i in range(1, A)).mean()) for v in (v_ba, v_ab)]
-        ctx.check(any(close(linv, c, A) for c in cands) or any(close(linv, -c, A) for c in cands), f"loss_inv|{sig}",
-                  f"loss_inv {float(linv):.8g} is not a mean summed cosine similarity of the projected embeddings "
-                  f"(candidates {cands})")
+        if A == 1:
+            ctx.check(float(linv) == 0.0, f"loss_inv|{sig}", f"loss_inv {linv!r} without augmentation (expected 0)")
+        else:
+            # invariance term: mean over rows of sum_i cos(pe[:, 0], pe[:, i]); layout (b a) as coded or (a b) as laid out
+            pe = out["proj_embeddings"].detach().double()
+            cos = torch.nn.functional.cosine_similarity
+            v_ba = pe.reshape(B, A, *pe.shape[1:])
+            v_ab = pe.reshape(A, B, *pe.shape[1:]).transpose(0, 1)
+            cands = [float(sum(cos(v[:, 0], v[:, i], dim=-1) for i in range(1, A)).mean()) for v in (v_ba, v_ab)]
+            ctx.check(any(close(linv, c, A) for c in cands) or any(close(linv, -c, A) for c in cands), f"loss_inv|{sig}",
+                      f"loss_inv {float(linv):.8g} is not a mean summed cosine similarity of the projected embeddings "
+                      f"(candidates {cands})")
         total64 = terms64["loss_ps"] + case["beta"] * terms64["loss_ss"] + case["alpha"] * float(linv)
         ctx.check(close(out["loss"], total64, scale * (1 + case["beta"]) + case["alpha"] * A), f"loss_value|{sig}",
                   f"loss {float(out['loss']):.8g} != L_ps + beta*L_ss + alpha*L_inv = {total64:.8g}",
@@ -869,7 +1048,9 @@ def exec_symnco(case, ctx):
 
         def ref_fn(pert):
             d = 0.0 if pert is None else pert
-            ref = case["beta"] * (-((adv_ss + d).float() * llg).mean()) + case["alpha"] * linv
+            ref = case["alpha"] * linv
+            if A > 1:
+                ref = ref + case["beta"] * (-((adv_ss + d).float() * llg).mean())
             if S > 1:
                 ref = ref + (-((adv_ps + d).float() * llg).mean())
             return ref
@@ -909,23 +1090,44 @@ def exec_ppo(case, ctx):
 
     env = make_env(case)
     pol = make_policy(case)
-    critic = make_critic(case, pol, shared=case["shared_encoder"])
-    prec, crec = Recorder(pol), Recorder(critic)
     B, eps = case["B"], case["clip"]
     mb = case["mb"]
-    if case["mb_mode"] == "frac" or (case["mb_mode"] == "full" and mb == 1.0):
+    if case["mb_mode"] == "fallback":
+        pass  # (as drawn: the type decides the fallback; JSON keeps int / float apart)
+    elif case["mb_mode"] == "frac" or (case["mb_mode"] == "full" and mb == 1.0):
         mb = float(mb)
     else:
         mb = int(mb)
-    model = PPO(env, pol, critic=critic, clip_range=eps, ppo_epochs=case["ppo_epochs"], mini_batch_size=mb,
-                vf_lambda=case["vf_lambda"], entropy_lambda=case["entropy_lambda"],
-                normalize_adv=case["normalize_adv"], max_grad_norm=case["max_grad_norm"])
+    kw = dict(clip_range=eps, ppo_epochs=case["ppo_epochs"], mini_batch_size=mb,
+              vf_lambda=case["vf_lambda"], entropy_lambda=case["entropy_lambda"],
+              normalize_adv=case["normalize_adv"], max_grad_norm=case["max_grad_norm"])
+    route = case.get("critic_route", "explicit")
+    if route == "explicit":
+        critic = make_critic(case, pol, shared=case["shared_encoder"])
+        model = PPO(env, pol, critic=critic, **kw)
+    else:
+        from rl4co.models.zoo import AMPPO
+
+        ck = dict(embed_dim=case["E"], hidden_dim=2 * case["E"])
+        torch.manual_seed(case["wseed"] + 7)
+        if route == "default":
+            model = ctx.guard(PPO, env, pol, critic=None, critic_kwargs=ck, what="PPO.__init__|critic=None", **kw)
+        else:
+            model = ctx.guard(AMPPO, env, pol, critic_kwargs=ck, what="AMPPO.__init__|critic=None", **kw)
+        critic = model.critic
+        check_default_critic(ctx, "ppo" if route == "default" else "amppo", pol, critic)
+    if case["mb_mode"] == "fallback":
+        want_mb = 0.25 if isinstance(mb, float) else 128
+        ctx.check(model.ppo_cfg["mini_batch_size"] == want_mb, "ppo|mini_batch_size_fallback",
+                  f"mini_batch_size={mb!r} fell back to {model.ppo_cfg['mini_batch_size']!r}, documented {want_mb}")
+        ctx.event(f"mb_fallback={'float' if isinstance(mb, float) else 'int'}")
+    prec, crec = Recorder(pol), Recorder(critic)
     named = uniq_named(("policy", pol), ("critic", critic))
     log = []
     opt = FakeOpt([p for _, p in named], case["opt"], case["sigma"], case["wseed"], log)
     sig = f"ppo|{'norm' if case['normalize_adv'] else 'raw'}"
     _CUR["sig"] = sig
-    state = {"n": 0, "rows": 0, "last": None, "Rall": []}
+    state = {"n": 0, "rows": 0, "last": None, "Rall": [], "start_n": 0}
     m_eff = min(case["m"], B)
 
     def manual_backward(loss, *a, **k):
@@ -951,7 +1153,7 @@ def exec_ppo(case, ctx):
                   "mini-batch reward is not the objective of the row's stored actions", {"R": R, "ref": ref_R})
         ll64, V64, R64, H64 = ll.detach().double(), V.detach().double().squeeze(-1), R.double(), H.detach().double()
         rho64 = torch.exp(ll64.sum(-1) - lp_old.double())
-        if opt.n == 0:
+        if opt.n == state["start_n"]:  # no optimiser step yet within this shared_step
             # float32 rounding of the summed log-probabilities: the sampling pass runs on the whole batch, the
             # evaluation pass on a shuffled mini-batch (other kernel shapes / accumulation orders, amplified by the
             # normalisation layers): 256 ulp of (1 + sum_t |ll_t|) ~ 3e-5 per unit of |log-likelihood|, x4 with batch
@@ -1010,15 +1212,19 @@ def exec_ppo(case, ctx):
     model.manual_backward = manual_backward
     model.clip_gradients = clip_gradients
 
-    batch = gen_batch(env, B, case["dseed"])
-    torch.manual_seed(case["sseed"])
-    res = ctx.guard(model.shared_step, batch.clone(), 0, "train", what="shared_step|ppo")
     n_mb = math.ceil(B / m_eff)
-    ctx.check(state["n"] == case["ppo_epochs"] * n_mb and state["rows"] == case["ppo_epochs"] * B,
-              f"inner_steps|{sig}", f"{state['n']} inner steps / {state['rows']} rows for ppo_epochs "
-              f"{case['ppo_epochs']}, batch {B}, mini-batch {m_eff}")
-    ctx.check(state["last"] is not None and float(res["loss"]) == float(state["last"]), f"returned_loss|{sig}",
-              "shared_step does not return the last inner loss")
+    for k, stp in enumerate([case] + ([case["second"]] if case.get("second") else [])):
+        state.update(n=0, rows=0, last=None, start_n=opt.n)
+        batch = gen_batch(env, B, stp["dseed"])
+        torch.manual_seed(stp["sseed"])
+        res = ctx.guard(model.shared_step, batch.clone(), k, "train", what="shared_step|ppo" + ("|second" if k else ""))
+        ctx.check(state["n"] == case["ppo_epochs"] * n_mb and state["rows"] == case["ppo_epochs"] * B,
+                  f"inner_steps|{sig}", f"{state['n']} inner steps / {state['rows']} rows for ppo_epochs "
+                  f"{case['ppo_epochs']}, batch {B}, mini-batch {m_eff} (shared_step #{k})")
+        ctx.check(state["last"] is not None and float(res["loss"]) == float(state["last"]), f"returned_loss|{sig}",
+                  "shared_step does not return the last inner loss")
+        if k:
+            ctx.event("second_shared_step" + ("_after_parameter_change" if case["opt"] == "noise" else ""))
     Rall = torch.cat(state["Rall"][:n_mb])
     ctx.event(f"mb={'full' if m_eff == B else 'partial'}")
     ctx.event(f"opt={case['opt']}")
@@ -1030,9 +1236,26 @@ def exec_ppo(case, ctx):
 
 
 # =========================================================================== RolloutBaseline.eval
+def _drift(pol, amount, seed):
+    if amount > 0:
+        g = torch.Generator().manual_seed(seed)
+        with torch.no_grad():
+            for p in pol.parameters():
+                p.add_(amount * p.abs().mean() * torch.randn(p.shape, generator=g))
+
+
+def _same_params(a, b):
+    """parameters and buffers (batch-norm running statistics move with every train-mode forward)"""
+    sa, sb = a.state_dict(), b.state_dict()
+    return sa.keys() == sb.keys() and all(torch.equal(sa[k], sb[k]) for k in sa)
+
+
 def exec_rollout_eval(case, ctx):
     """REINFORCE.calculate_loss with the bundled RolloutBaseline consulted through eval() (no `extra`):
-    b must be the *greedy* rollout of the frozen baseline policy (class docstring, Kool et al. 2019)."""
+    b must be the *greedy* rollout of the frozen baseline policy (class docstring, Kool et al. 2019).
+    With case['warm']: the same through the library default baseline="rollout" = WarmupBaseline(RolloutBaseline)."""
+    if case.get("warm"):
+        return exec_warm_rollout(case, ctx)
     from rl4co.models.rl import REINFORCE
 
     env = make_env(case)
@@ -1043,11 +1266,7 @@ def exec_rollout_eval(case, ctx):
     torch.manual_seed(case["eseed"])
     ctx.guard(model.baseline.setup, pol, env, batch_size=B, device="cpu", dataset_size=B, what="baseline.setup")
     pol.train()
-    if case["drift"] > 0:
-        g = torch.Generator().manual_seed(case["wseed"] + 3)
-        with torch.no_grad():
-            for p in pol.parameters():
-                p.add_(case["drift"] * p.abs().mean() * torch.randn(p.shape, generator=g))
+    _drift(pol, case["drift"], case["wseed"] + 3)
     named = uniq_named(("policy", pol))
     batch = gen_batch(env, B, case["dseed"])
     td0 = env.reset(batch.clone())
@@ -1058,6 +1277,7 @@ def exec_rollout_eval(case, ctx):
         b_ref = frozen(td0.clone(), env, decode_type="greedy")["reward"].double()
     out = ctx.guard(model.calculate_loss, td0.clone(), batch, out, what="calculate_loss|rollout_eval")
     sig = "rollout_eval"
+    ctx.event("baseline=rollout_only")
     check_no_grad_inputs(ctx, sig, R, ll, out["bl_val"])
     got = out["bl_val"].detach().double()
     b64 = b_ref
@@ -1072,13 +1292,92 @@ def exec_rollout_eval(case, ctx):
     ctx.sample({k_: case[k_] for k_ in ("env", "n", "B", "E", "L", "norm", "drift")})
 
 
+def exec_warm_rollout(case, ctx):
+    """baseline="rollout" (library default): b = alpha * greedy rollout of the frozen baseline policy
+    + (1 - alpha) * EMA of the batch-mean rewards seen while alpha < 1; alpha = (epoch+1)/n_epochs after the callback of
+    `epoch` (WarmupBaseline docstring: 'convex combination of baseline and exponential baseline').  The frozen policy is
+    the snapshot taken at setup or, after a callback that accepted the challenger, the policy of that moment (which of the
+    two is read from the library object and must be exactly one of them; the acceptance test itself is not judged here)."""
+    from rl4co.models.rl import REINFORCE
+    from rl4co.models.rl.reinforce.baselines import RolloutBaseline, WarmupBaseline
+
+    w = case["warm"]
+    env = make_env(case)
+    pol = make_policy(case)
+    B = case["B"]
+    if w["via"] == "name":
+        model = REINFORCE(env, pol, baseline="rollout",
+                          baseline_kwargs=dict(n_epochs=w["n_epochs"], exp_beta=w["beta"], bl_alpha=w["bl_alpha"]))
+    else:
+        model = REINFORCE(env, pol, baseline=WarmupBaseline(RolloutBaseline(bl_alpha=w["bl_alpha"]),
+                                                            n_epochs=w["n_epochs"], warmup_exp_beta=w["beta"]))
+    bl = model.baseline
+    ctx.check(isinstance(bl, WarmupBaseline) and isinstance(bl.baseline, RolloutBaseline) and bl.n_epochs == w["n_epochs"]
+              and bl.warmup_baseline.beta == w["beta"] and bl.baseline.bl_alpha == w["bl_alpha"],
+              "warm_rollout|construction", f"baseline='rollout' built {type(bl).__name__}({type(bl.baseline).__name__}), "
+              f"n_epochs {bl.n_epochs}, beta {bl.warmup_baseline.beta}")
+    frozen = copy.deepcopy(pol).eval()
+    torch.manual_seed(case["eseed"])
+    ctx.guard(bl.setup, pol, env, batch_size=B, device="cpu", dataset_size=2 * B, what="baseline.setup|warmup[rollout]")
+    named = uniq_named(("policy", pol))
+    ref = RefWarmup(None, w["n_epochs"], w["beta"])
+    sig = "warmup[rollout]|eval"
+    ctx.event(f"baseline=rollout|via={w['via']}")
+    for k, stp in enumerate(w["steps"]):
+        _drift(pol, stp["drift"], case["wseed"] + 3 + k)
+        for _ in range(w["callbacks"][k]):
+            ctx.guard(bl.epoch_callback, pol, env=env, batch_size=B, device="cpu", epoch=ref.epoch, dataset_size=2 * B,
+                      what="epoch_callback|warmup[rollout]")
+            ref.callback()
+            if not _same_params(bl.baseline.policy, frozen):
+                if not ctx.check(_same_params(bl.baseline.policy, pol), f"rollout_policy_unknown|{sig}",
+                                 "after epoch_callback the baseline policy is neither the previous snapshot nor the "
+                                 "challenger"):
+                    return
+                frozen = copy.deepcopy(pol).eval()
+                ctx.event("challenger_accepted")
+        ctx.check(bl.baseline.policy is not pol, f"rollout_policy_aliased|{sig}", "the baseline policy IS the trained policy")
+        pol.train()  # (RolloutBaseline.rollout leaves the challenger in eval mode; Lightning re-enters train mode)
+        alpha = ref.alpha
+        ph = "0" if alpha == 0 else "1" if alpha == 1 else "interior"
+        ctx.event(f"alpha={ph}|warmup[rollout]")
+        ctx.check(float(bl.alpha) == alpha, f"warmup_alpha|{sig}", f"alpha {bl.alpha} after {ref.epoch} callbacks, "
+                  f"n_epochs {w['n_epochs']}: expected {alpha}")
+        batch = gen_batch(env, B, stp["dseed"])
+        td0 = env.reset(batch.clone())
+        torch.manual_seed(stp["sseed"])
+        out = ctx.guard(pol, td0.clone(), env, phase="train", what="policy")
+        R, ll = out["reward"], out["log_likelihood"]
+        R64 = R.detach().double()
+        with torch.no_grad():
+            g64 = frozen(td0.clone(), env, decode_type="greedy")["reward"].double()
+        if alpha == 1:
+            b64 = g64
+        else:
+            e64 = torch.full_like(R64, ref.warm.ema(R64))
+            b64 = e64 if alpha == 0 else alpha * g64 + (1 - alpha) * e64
+        out = ctx.guard(model.calculate_loss, td0.clone(), batch, out, what=f"calculate_loss|warmup[rollout]|alpha={ph}")
+        s2 = f"{sig}|alpha={ph}"
+        check_no_grad_inputs(ctx, s2, R, ll, out["bl_val"])
+        check_bl_val(ctx, s2, out["bl_val"], b64, R, k)
+        ctx.check(not torch.is_tensor(out["bl_loss"]) or float(out["bl_loss"]) == 0.0, f"baseline_loss|{s2}",
+                  f"bl_loss {out['bl_loss']} for a baseline without parameters")
+        check_surrogate(ctx, case, s2, out, named, R, ll, b64, 0.0, RefScaler(None), k)
+        mark(ctx, case, R, k + 1, False)
+    ctx.sample({k_: case[k_] for k_ in ("env", "n", "B", "E", "L", "norm", "warm")})
+
+
 # =========================================================================== minimiser
 def _minimize(case):
     """candidates: fewer steps, smaller batch / graph / network, plain options"""
+    if case.get("warm") and len(case["warm"]["steps"]) > 1:
+        w = case["warm"]
+        yield {**case, "warm": {**w, "steps": w["steps"][:-1], "callbacks": w["callbacks"][:-1]}}
     steps = case.get("steps")
     if steps and len(steps) > 1:
-        yield {**case, "steps": steps[:-1], **({"callbacks": case["callbacks"][:-1]} if "callbacks" in case else {})}
-        yield {**case, "steps": steps[1:], **({"callbacks": case["callbacks"][1:]} if "callbacks" in case else {})}
+        per = [k_ for k_ in ("callbacks", "jumps", "between") if k_ in case]
+        yield {**case, "steps": steps[:-1], **{k_: case[k_][:-1] for k_ in per}}
+        yield {**case, "steps": steps[1:], **{k_: case[k_][1:] for k_ in per}}
     for key, lo in (("B", 3), ("B", 2), ("n", 4), ("L", 1), ("E", 16), ("H", 2)):
         if case.get(key, lo) > lo and "mb" not in case:
             c = {**case, key: lo}
@@ -1103,7 +1402,10 @@ SUBS = [
     Sub("ppo", exec_ppo, strategy=lambda tier: ppo_cases(tier),
         budget={"quick": 96, "thorough": 1200}, shards=8, shrink=False, minimize=_minimize, weight=2.0),
     Sub("rollout_eval", exec_rollout_eval, strategy=lambda tier: rollout_eval_cases(tier),
-        budget={"quick": 16, "thorough": 200}, shards=2, shrink=False, minimize=_minimize),
+        budget={"quick": 48, "thorough": 800}, shards=8, shrink=False, minimize=_minimize),
+    # zoo models with their own loss / rollout layout (vf/c16_zoo_loss.py)
+    Sub("zoo_loss", _zoo.exec_zoo, strategy=lambda tier: _zoo.zoo_cases(tier),
+        budget={"quick": 96, "thorough": 1200}, shards=8, shrink=False, minimize=_zoo.minimize_zoo, weight=2.0),
     # the two further bundled PPO implementations (vf/c16_ppo_variants.py)
     Sub("stepwise_ppo", _ppov.exec_stepwise, strategy=lambda tier: _ppov.stepwise_cases(tier),
         budget={"quick": 96, "thorough": 1200}, shards=8, shrink=False, minimize=_ppov.minimize_stepwise, weight=2.0),
